@@ -10,7 +10,7 @@ THEOREMS = ['C16_embedded_eq_posthoc', 'C16_embedded_driver', 'C16_variants_equa
             'C16_example', 'C16_conditions_are_source', 'C16_lookup_is_current_state', 'C16_embedded_is_current_state',
             'C16_memo_lookup_refuted', 'C16_merge_embedded_eq_posthoc', 'C16_vargs_call_agree',
             'C16_vargs_embedded_eq_posthoc', 'C16_embedded_meta_refused_inplace_refuted', 'C16_inplace_dag_refuted']
-GEN_DEPS = ['ShapeHoles']
+GEN_DEPS = ['ShapeHoles', 'ForestSortKey']
 RULE = ('(a) random trees (depth <= 4, 0-4 children, rule names incl. `_x`, three token types, None leaves, childless '
         'trees) x generated pure transformer classes (callbacks on a random subset of rule names and token types building '
         'tagged tuples; plain / function-level v_args(inline=True) / v_args(tree=True) / mixed / class-level v_args / '
